@@ -134,6 +134,16 @@ Proof.
 Qed.
 Print Assumptions interp_weights_ok.
 
+(* LPInterpolation: the value never exceeds the weighted sum of corner and point values taken with the
+   exact (pre-clean-up) weights [raw]; w is raw or its clean-up *)
+Theorem interp_value_le_weighted : forall point pts vals, interp_wf point pts vals ->
+  forall lp_min, lp_sound lp_min -> forall ubQ v w, ubQ_wf point ubQ ->
+  LPInterpolation lp_min point ubQ pts vals = Some (v, w) ->
+  exists raw, (w = raw \/ w = map cleanup raw) /\ weights_ok point pts raw /\
+              v <= weighted_value raw (cornerVals ubQ) vals.
+Proof. exact lpi_value_le_weighted_lemma. Qed.
+Print Assumptions interp_value_le_weighted.
+
 Theorem interp_value_le_weighted_sawtooth : forall point ubQ pts vals,
   interp_wf point pts vals -> ubQ_wf point ubQ ->
   fst (sawtoothInterpolation point ubQ pts vals) <=
